@@ -94,6 +94,8 @@ Proof.
     rewrite r_sets_counters. unfold counters_r; simpl; now rewrite !N.add_0_r.
   - (* IOr *)
     rewrite r_sets_counters. unfold counters_r; simpl; now rewrite !N.add_0_r.
+  - (* UpdateSelf *)
+    rewrite r_sets_counters. unfold counters_r; simpl; now rewrite !N.add_0_r.
 Qed.
 
 Lemma accept_counters c r o out r' :
